@@ -236,12 +236,17 @@ class C11(Check):
         outs = []
         t = None
         if tam and tam[0] == 'protected' and verify and tam[1] % 2 == 0:
-            # history: the genuine image has been loaded (and verified) in this process before the altered one arrives
-            info['prior-genuine-load'] = 1
-            try:
-                TitleMetadataReader.load(io.BytesIO(orig), verify_hashes=True)
-            except Exception:  # noqa
-                pass
+            # history: other loads happened in this process before the altered image arrives for verification - the genuine image
+            # (verified or not), and the ALTERED image itself looked at without verification; none of them may leave anything
+            # behind that lets the verified load of the altered image succeed
+            hist = [(('genuine', True),), (('altered', False),), (('genuine', False), ('altered', False)),
+                    (('altered', False), ('genuine', True), ('altered', False))][(tam[1] // 2) % 4]
+            info['prior loads:' + '+'.join(f'{w}/{"v" if v else "nv"}' for w, v in hist)] = 1
+            for which, v in hist:
+                try:
+                    TitleMetadataReader.load(io.BytesIO(orig if which == 'genuine' else b), verify_hashes=v)
+                except Exception:  # noqa
+                    pass
         try:
             t = TitleMetadataReader.load(io.BytesIO(b), verify_hashes=verify)
             outs.append(render(t))
